@@ -11,11 +11,11 @@ ASSUMPTIONS = c01.ASSUMPTIONS + ["authentication of the key itself is C03/C11 (h
 FILES = c01.FILES + ["root/c04_test.go"]
 
 
-def run(ctx):
+def run(ctx, name="C04"):
     rc, out, recs = ctx.go("", "^TestVerifC04$", FILES, "wsrpc", timeout=1200 if ctx.thorough else 400)
     ctx.records += recs
     if rc != 0 or not recs:
-        ctx.fail("harness:C04", "the multi-session harness did not run to completion on this tree: " + out[-1200:], kind="correspondence", no_input=True)
+        ctx.fail("harness:" + name, "the multi-session harness did not run to completion on this tree: " + out[-1200:], kind="correspondence", no_input=True)
         return
     for r in recs:
         if r.get("fail"):
